@@ -109,7 +109,10 @@ func vpC08_O1() {
 		}
 	case hasRange:
 		if vpBool("mutateRange") {
-			mutation = 16 + vpChoose("rangeMutation", 6)
+			mutation = 16 + vpChoose("rangeMutation", 8)
+			if mutation >= 22 {
+				mutation += 1 // 23, 24 (22 is a non-revocation mutation)
+			}
 		}
 	default:
 		mutation = vpChoose("mutation", 11)
@@ -182,6 +185,16 @@ func vpC08_O1() {
 		for k := range p.RangeProofs {
 			p.RangeProofs[k] = []*rangeproof.Proof{nil}
 		}
+		mandatoryGone = true
+	case 23: // two arrays altered together: both response arrays one short of the commitments
+		vpAssume(hasRange && len(rp.DResponses) > 1 && len(rp.VResponses) > 1)
+		rp.DResponses = rp.DResponses[:len(rp.DResponses)-1]
+		rp.VResponses = rp.VResponses[:len(rp.VResponses)-1]
+		mandatoryGone = true
+	case 24: // ... or both one longer
+		vpAssume(hasRange)
+		rp.DResponses = append(append([]*big.Int{}, rp.DResponses...), rp.DResponses[0])
+		rp.VResponses = append(append([]*big.Int{}, rp.VResponses...), rp.VResponses[0])
 		mandatoryGone = true
 	}
 	ctx, nonce := vpBigBits("ctx", 256), vpBigBits("nonce", 80)
